@@ -6,5 +6,5 @@ SeqOf(S) == LET RECURSIVE F(_)
 Emit == /\ phase = "ids" => PrintT(ToJson([kind |-> "ids", defs |-> SeqOf(defs), imports |-> SeqOf(imports),
                                            refs |-> {[src |-> r[1], id |-> r[2], doc |-> r[3], target |-> Target(r[1], r[2], r[3])] : r \in Refs}]))
         /\ phase = "sn" => PrintT(ToJson([kind |-> "sn", sn |-> sn, g |-> SnTargetG(sn), a |-> SnTargetA(sn), v |-> SnTargetV(sn),
-                                          g2 |-> SnTargetG2(sn), g2v |-> SnTargetG2Retargeted(sn)]))
+                                          g2 |-> SnTargetG2(sn), g2v |-> SnTargetG2Retargeted(sn), row |-> SnTargetRowA(sn)]))
 =============================================================================
